@@ -150,7 +150,9 @@ def run(ctx):
                     if len(r) > 6 and r[6] != 'T':
                         ctx.failure('VerbatimUrl: partial_cmp / < is not the order cmp gives, or to_url / into_url is not the parsed URL', {'a': ta, 'built_a': ha, 'b': tb, 'built_b': hb})
     # ... and with origins attached: every field that == looks at must also separate under cmp and hash
-    ORIGINS = ['none', ['file', S('requirements.txt')], ['file', S('other.txt')], ['project', S('/p'), S('proj')], ['project', S('/p'), S('other')], ['workspace']]
+    # ... including paths that are equal as paths but written differently (trailing / doubled separator, `.` component)
+    ORIGINS = ['none', ['file', S('requirements.txt')], ['file', S('other.txt')], ['project', S('/p'), S('proj')], ['project', S('/p'), S('other')], ['workspace'],
+               ['project', S('/p/'), S('proj')], ['file', S('requirements/base.txt')], ['file', S('requirements//base.txt')], ['file', S('./requirements/./base.txt')]]
     for a in REQS[:6]:
         for b in REQS[:6]:
             for oa in ORIGINS:
